@@ -1,6 +1,6 @@
 """C09 — shared-memory datasets keep their bytes, are protected in use, stay reachable (structural clauses)."""
 from .shm import (r_reader_ids, r_get_pagein, r_pageoutable, r_eviction_flow, r_purge, r_close_callback, r_pageout_transition, r_disk,
-                  r_pageout_callback, r_pagein_callback)
+                  r_pageout_callback, r_pagein_callback, r_server_dispatch, r_client_protocol, r_segment_name)
 
 META = {
     "explanation": "Static structural analysis of the shm dataset state machine on model stores: get() grants only in_memory datasets; the "
@@ -12,4 +12,4 @@ META = {
     "assumptions": ["SharedMemory / files / thread pools are opaque effects; `callback` closures analysed with the facts at submission"],
 }
 RULES = [r_get_pagein, r_pageoutable, r_eviction_flow, r_purge, r_close_callback, r_pageout_transition, r_pageout_callback,
-         r_pagein_callback, r_disk, r_reader_ids]
+         r_pagein_callback, r_disk, r_reader_ids, r_server_dispatch, r_client_protocol, r_segment_name]
